@@ -16,7 +16,7 @@ import copy
 from typing import Dict, List, Optional, Tuple
 
 from ..astutil import chain_heads, if_chain, txt
-from ..confinement import handler_functions, report_function, run_confinement
+from ..confinement import handler_functions, report_bypass, report_function, run_confinement
 from ..model import AnalysisError, FunctionInfo, walk_local
 from .c01 import BODY, handlers_of
 
@@ -91,6 +91,22 @@ def r32(ctx, res):
     if not ok:
         res.violation("R3.2", fi, fi.node, "coplanar polygons: edge x edge crossings are not collected: %s" % why,
                       construct="%s: edge crossing family" % fi.short)
+    # every result of the coplanar branch lies behind all three families
+    fams = [vert[x] for x in (a, b) if x in vert] + edge
+    if fams:
+        par_if = None
+        for st in walk_local(fi.node):
+            if isinstance(st, ast.If) and any(f_ in ast.walk(st) for f_ in fams[:1]):
+                par_if = st
+        scope = [fi.node]
+        if par_if is not None:
+            # innermost statement list that contains the families
+            for st in walk_local(fi.node):
+                if isinstance(st, ast.If):
+                    for body in (st.body, st.orelse):
+                        if all(any(f_ is x for x in body) for f_ in fams):
+                            scope = body
+        n += report_bypass(ctx, res, fi, "R3.2", fams, scope, "vertices of a in b, vertices of b in a, edge crossings")
     # --- polyhedron/polyhedron
     fj = repo.fn("inter_convexpolyhedron_convexpolyhedron", "calc.intersection")
     p, q = fj.params[:2]
@@ -112,6 +128,8 @@ def r32(ctx, res):
             res.violation("R3.2", fj, fj.node, "polyhedron x polyhedron: the faces of %s are never clipped by %s; the part of the "
                           "result's boundary that lies on %s is lost" % (owner, other, owner),
                           construct="%s: faces of %s" % (fj.short, owner))
+    if owners:
+        n += report_bypass(ctx, res, fj, "R3.2", list(owners.values()), fj.node.body, "faces of each polyhedron clipped by the other")
     if p in owners and q in owners:
         n += 1
         t1 = txt(owners[p])
